@@ -86,6 +86,8 @@ def rich_doc(rng, words):
                     vals.append({"o": rng.random() < 0.5})
             streams.append({"path": path, "vals": vals})
         d["j"] = streams
+        if rng.random() < 0.4:
+            d["j2"] = [{"path": st["path"], "vals": [dict(v) for v in st["vals"] if "s" in v][:2] or [{"i": "3"}]} for st in streams[:2]]
     return d
 
 
@@ -204,6 +206,27 @@ def jsonvals_case(i, j, rng):
     return {"id": i, "kind": "jsonvals", "jsonvals": j, "segs": [docs[:2], docs[2:]], "deletes": [], "merge": True, "seeks": []}
 
 
+def json2_case(i, c, rng):
+    """documents with text under the same path in both JSON fields (TLC-generated shape)"""
+    path = ["o", "t"] if c["nested"] else ["t"]
+    docs = []
+    for variant in range(3):
+        def leaves(field_no, words, many):
+            out = [{"s": [f"f{field_no}v{variant}w{x}" if x % 2 else "hello" for x in range(words)], "obj": 0}]
+            if many:
+                out.append({"s": ["again", "hello"], "obj": 0 if variant % 2 else 1})
+            return out
+        d = {"j": [{"path": path, "vals": leaves(1, c["words1"], c["multi"] == "first")}],
+             "j2": [{"path": path, "vals": leaves(2, c["words2"], c["multi"] == "second")}]}
+        if c["disjoint_path_too"]:
+            d["j"].append({"path": ["only1"], "vals": [{"s": ["x1", "x2"], "obj": 0}]})
+            d["j2"].append({"path": ["only2"], "vals": [{"s": ["y1"], "obj": 0}, {"i": "7", "obj": 0}]})
+        if variant == 2:
+            d.pop("j")          # a document with the path in the second field only
+        docs.append(d)
+    return {"id": i, "kind": "json2", "json2": c, "segs": [docs[:2], docs[2:]], "deletes": [], "merge": True, "seeks": []}
+
+
 def describe(unit, k, text):
     e = unit[k - 1]
     seg = next((x for x in reversed(unit[:k]) if x.get("ev") == "seg"), {})
@@ -222,7 +245,7 @@ def describe(unit, k, text):
 
 def run_cases(ctx, cases, label):
     cp = ctx.path(f"{label}_cases.ndjson")
-    vlib.write_ndjson(cp, [{k: v for k, v in c.items() if k not in ("kind", "shape", "tf", "many", "jsonvals", "vintb")} for c in cases])
+    vlib.write_ndjson(cp, [{k: v for k, v in c.items() if k not in ("kind", "shape", "tf", "many", "jsonvals", "vintb", "json2")} for c in cases])
     tp = ctx.path(f"{label}_trace.ndjson")
     vlib.run_bin("invidx_driver", ["run", "--in", cp, "--out", tp], timeout=900, mem_gb=12)
     ev = _fid.clean(vlib.read_ndjson(tp))
@@ -340,6 +363,12 @@ def run(ctx):
     for j in jvs:
         cases.append(jsonvals_case(len(cases), j, rng))
     ctx.cov["json_multi_value_cases"] = len(jvs)
+    j2s = [c for c in gen if c["what"] == "json2"]
+    if len(j2s) < 12:
+        raise vlib.ToolError("Gen_InvertedIndex produced no two-JSON-field cases")
+    for c in j2s:
+        cases.append(json2_case(len(cases), c, rng))
+    ctx.cov["two_json_field_cases"] = len(j2s)
     for i in range(n_rich):
         cases.append(rich_case(len(cases), rng, special=(i % 6 == 0)))
     units, n_ok = run_cases(ctx, cases, "index")
